@@ -329,7 +329,9 @@ func (e *emitChecker) matchStruct(node *vmodel.JVal, v reflect.Value) {
 	}
 	declared := map[string]reflect.StructField{}
 	for i := 0; i < t.NumField(); i++ {
-		declared[vmodel.Term(t.Field(i))] = t.Field(i)
+		if t.Field(i).IsExported() {
+			declared[vmodel.Term(t.Field(i))] = t.Field(i)
+		}
 	}
 	for _, m := range node.Members {
 		if _, ok := declared[m.Name]; ok {
@@ -344,6 +346,9 @@ func (e *emitChecker) matchStruct(node *vmodel.JVal, v reflect.Value) {
 	}
 	for i := 0; i < t.NumField(); i++ {
 		f := t.Field(i)
+		if !f.IsExported() {
+			continue
+		}
 		term := vmodel.Term(f)
 		pos := kind + "." + term
 		fv := v.Field(i)
